@@ -219,7 +219,7 @@ func TestC11(t *testing.T) {
 			"the file's trailing trivia is the trivia of the EOF node",
 	})
 
-	nRetrivia, nGen, nMut := r.N(1200, 24000), r.N(1200, 24000), r.N(1500, 30000)
+	nRetrivia, nGen, nMut := r.N(2000, 60000), r.N(2000, 60000), r.N(2500, 80000)
 	cases := textCases(r, "C11", nRetrivia, nGen, nMut)
 	r.Par(len(cases), func(i int) {
 		c := cases[i]
